@@ -92,19 +92,13 @@ where
                 IndexData::Bin(bin) => {
                     parse_binary_entry(remaining, entry.num_items, bin, "Bin")?;
                 }
-                IndexData::StringArray(strings) => {
+                IndexData::StringArray(strings) | IndexData::I18NString(strings) => {
                     for _ in 0..entry.num_items {
                         let (rest, raw_string) = complete::take_till(|item| item == 0)(remaining)?;
                         // the null byte is still in there.. we need to cut it out.
-                        remaining = &rest[1..];
-                        let string = String::from_utf8_lossy(raw_string).to_string();
-                        strings.push(string);
-                    }
-                }
-                IndexData::I18NString(strings) => {
-                    for _ in 0..entry.num_items {
-                        let (rest, raw_string) = complete::take_till(|item| item == 0)(remaining)?;
-                        remaining = rest;
+                        remaining = rest.get(1..).ok_or_else(|| {
+                            Error::Nom("Unterminated string in string array entry".to_string())
+                        })?;
                         let string = String::from_utf8_lossy(raw_string).to_string();
                         strings.push(string);
                     }
